@@ -7,6 +7,7 @@
 """Handles parsing of Python code."""
 
 import _ast
+import ast as _pyast
 import operator
 
 from mako import _ast_util
@@ -250,8 +251,28 @@ class ParseFunc(_ast_util.NodeVisitor):
 
 class ExpressionGenerator:
     def __init__(self, astnode):
-        self.generator = _ast_util.SourceGenerator(" " * 4)
-        self.generator.visit(astnode)
+        try:
+            generator = _ast_util.SourceGenerator(" " * 4)
+            generator.visit(astnode)
+            self._value = "".join(generator.result)
+        except Exception:
+            self._value = None
+
+        # the bundled generator predates a number of node types and leaves
+        # out parentheses that conditional expressions and lambdas need;
+        # where its text does not parse back to the tree it was given, use
+        # the interpreter's own unparser
+        if isinstance(astnode, _ast.expr) and not self._round_trips(astnode):
+            self._value = _pyast.unparse(astnode)
+
+    def _round_trips(self, astnode):
+        if self._value is None:
+            return False
+        try:
+            parsed = _pyast.parse(self._value.strip(), mode="eval").body
+        except (SyntaxError, ValueError):
+            return False
+        return _pyast.dump(parsed) == _pyast.dump(astnode)
 
     def value(self):
-        return "".join(self.generator.result)
+        return self._value
